@@ -80,7 +80,7 @@ Proof.
   destruct (convert_from_dec F [] HpF) as (out & Eout & HA). cbn [rev app] in Eout. rewrite Eout in ED. subst out.
   pose proof (cf_structure payload mrg (fillp NO) tf xs ys F D Htf Hs HF HA) as HS.
   destruct (cf tf (xs ++ ys)) as [G|e] eqn:EG; [|rewrite HS; reflexivity].
-  destruct HS as (K & K0 & T & restD & restF & EDk & EFk & HK & EGs & EM).
+  destruct HS as (K & K0 & T & restD & restF & EDk & EFk & HK & EGs & EM & _).
   rewrite EM. cbn [bind]. f_equal.
   assert (HpG : pristine G) by (eapply cf_pristine; [exact Htf|exact Hs|exact Hp|exact EG]).
   rewrite EGs in HpG. apply Forall_app in HpG. destruct HpG as [HpK0 HpT].
